@@ -4,10 +4,13 @@ import (
 	"context"
 	"encoding/hex"
 	"errors"
+	"fmt"
 	"time"
 
 	"github.com/tellor-io/layer/x/bridge/types"
 	oracletypes "github.com/tellor-io/layer/x/oracle/types"
+
+	"github.com/ethereum/go-ethereum/crypto"
 )
 
 // c08Oracle: the oracle keeper as CreateSnapshot sees it. GetTimestampBefore/After are checked against the
@@ -82,13 +85,24 @@ func VerifC08_snapshot() {
 	ctx := ctx0.WithBlockHeight(h).WithBlockTime(time.UnixMilli(int64(nowMs)).UTC())
 	cp := ndByteSlice("checkpoint", 32)
 	must(k.ValidatorCheckpoint.Set(ctx, types.ValidatorCheckpoint{Checkpoint: cp}))
-	nVals := 1 + ndLen("validators", 2)
+	nVals := 2
+	if ndTier() >= 1 {
+		nVals = 1 + ndLen("validators", 2)
+	}
 	set := types.BridgeValidatorSet{}
 	for i := 0; i < nVals; i++ {
 		set.BridgeValidatorSet = append(set.BridgeValidatorSet, &types.BridgeValidator{EthereumAddress: []byte{byte(i + 1)}, Power: uint64(10 + i)})
 	}
 	must(k.BridgeValset.Set(ctx, set))
 	must(k.SnapshotLimit.Set(ctx, types.SnapshotLimit{Limit: 10}))
+	// an earlier snapshot of the same report may exist (taken when its neighbours were different): the new snapshot
+	// must carry the neighbours as they are now
+	if ndBool("snapshotTakenBefore") {
+		oldSnap := ndByteSlice("earlierSnapshot", 32)
+		key := crypto.Keccak256([]byte(hex.EncodeToString(qid) + fmt.Sprint(ts.UnixMilli())))
+		must(k.AttestSnapshotsByReportMap.Set(ctx, key, types.AttestationSnapshots{Snapshots: [][]byte{oldSnap}}))
+		must(k.AttestSnapshotDataMap.Set(ctx, oldSnap, types.AttestationSnapshotData{ValidatorCheckpoint: cp, AttestationTimestamp: 1, PrevReportTimestamp: ndUint64("stalePrev"), NextReportTimestamp: ndUint64("staleNext"), QueryId: qid, Timestamp: tsMs}))
+	}
 	err := k.CreateSnapshot(ctx, qid, ts, ndBool("external"))
 	if err != nil {
 		ndReach("refused")
